@@ -156,6 +156,7 @@ func DirectiveEntries() map[string]Entry {
 		"commodity-trailing-tab":  {Kind: EntryCommodity, Sym: "EUR", Format: "1.000,00 EUR", Trail: "\t"},
 		"include":                 {Kind: EntryInclude, Path: "sub/other.journal"},
 		"include-glob":            {Kind: EntryInclude, Path: "sub/*.journal"},
+		"include-blanks-in-path":  {Kind: EntryInclude, Path: "2001 other file.journal"},
 		"include-trailing-blanks": {Kind: EntryInclude, Path: "sub/other.journal", Trail: "  "},
 		"include-comment":         {Kind: EntryInclude, Path: "sub/other.journal", Comment: &Comment{Text: " the rest"}},
 		"price":                   {Kind: EntryPrice, PDate: Date{2001, 1, 3, "-", true, false}, Sym: "EUR", Price: Amount{Num: Num("1.10", "11/10"), Sym: "$", Side: SideLeft}},
